@@ -53,7 +53,7 @@ var plans = map[string]Plan{
 	"C18": {Jobs: []Job{{World: "wbuild", Params: "mode=faults,focus=signal,max_targets=5", Share: 1}}, Level: "fault_enumeration",
 		Rule: buildRule + faultRule + " C18: SIGINT delivered through the real SetupCommand handler at a drawn step of loading / execution / output writing / shutdown: no command is forked after the handler task has finished, the process ends within 10 s simulated, interrupted targets must execute again in the next build, which must acquire the (stale) lock and satisfy C01.",
 		Real: realBuild, Stub: append([]string{"that a real sh and its children die on kill (the simulated command dies at once)"}, stubBuild...), Assume: buildAssume, QuickS: 45, ThoroughS: 1200},
-	"C01": {Jobs: []Job{{World: "wbuild", Params: "max_targets=6", Share: 1}}, Level: "exploration", Rule: buildRule + " C01: after every build that exits 0 every declared output of every selected target equals the model's clean build; a target that must execute for lack of a result for its current state did execute.",
+	"C01": {Jobs: []Job{{World: "wbuild", Params: "max_targets=6", Share: 0.7}, {World: "wbuild", Params: "mode=faults,max_targets=5", Share: 0.3}}, Level: "exploration", Rule: buildRule + faultRule + " C01: after every build that exits 0 every declared output of every selected target equals the model's clean build; a target that must execute for lack of a result for its current state did execute.",
 		Real: realBuild, Stub: stubBuild, Assume: buildAssume, QuickS: 45, ThoroughS: 1200},
 	"C02": {Jobs: []Job{{World: "wbuild", Params: "max_targets=6", Share: 1}}, Level: "exploration", Rule: buildRule + " C02: the set of commands executed by each build is compared with MUST-NOT (cached result for the current state, nothing forcing execution), incl. no-op rebuild, early cut-off (projected commands) and damaged output paths.",
 		Real: realBuild, Stub: stubBuild, Assume: buildAssume, QuickS: 45, ThoroughS: 1200},
